@@ -349,10 +349,18 @@ func scenarioMachine(c *hlib.RunCtx) *hlib.Violation {
 		if r == 0 {
 			nfiles = 1 + t.Draw(4)
 		}
+		// Files often share a week (several programs and builds ending on the
+		// same day), which is when per-program aggregation and filtering matter.
+		lastEndAgo := -1
 		for i := 0; i < nfiles; i++ {
+			days := 1 + t.Draw(7)
 			ago := 1 + t.Draw(30)
+			if lastEndAgo >= 0 && t.Bool(1, 2) {
+				ago = lastEndAgo + days // same end date as the previous file
+			}
+			lastEndAgo = ago - days
 			kind := t.Biased(4, 4, 5)
-			mgen.WriteCounterFile(m.t, m.s, m.loc, s.NowT().Add(-time.Duration(ago)*24*time.Hour), 1+t.Draw(7), kind)
+			mgen.WriteCounterFile(m.t, m.s, m.loc, s.NowT().Add(-time.Duration(ago)*24*time.Hour), days, kind)
 		}
 		if t.Bool(1, 5) { // a file that is still active
 			mgen.WriteCounterFile(m.t, m.s, m.loc, s.NowT(), 1+t.Draw(7), 0)
